@@ -9,7 +9,9 @@ import Lean
 open Lean
 
 def main (args : List String) : IO UInt32 := do
-  let some modStr := args[0]? | (IO.eprintln "usage: Audit <module>"; return 2)
+  let some modStr := args[0]? | do
+    IO.eprintln "usage: Audit <module>"
+    return 2
   let modName := modStr.toName
   initSearchPath (← findSysroot)
   let env ← importModules #[{ module := modName }] {} 0
